@@ -8,6 +8,8 @@ import (
 	mh "github.com/multiformats/go-multihash"
 	"strings"
 
+	ipld "github.com/ipld/go-ipld-prime"
+	"github.com/ipld/go-ipld-prime/codec"
 	"github.com/ipld/go-ipld-prime/codec/dagcbor"
 	"github.com/ipld/go-ipld-prime/datamodel"
 	"github.com/ipld/go-ipld-prime/node/basicnode"
@@ -246,6 +248,11 @@ func runC02(c *core.Ctx) error {
 		return err
 	}
 	c02FailedEncodes(c, c.Rand.Fork(), c.Pick(150, 10000))
+	c02HelperHistories(c, c.Rand.Fork(), c.Pick(150, 10000), dagcbor.Encode, func(n datamodel.Node) ([]byte, error) {
+		var buf bytes.Buffer
+		err := dagcbor.Encode(n, &buf)
+		return buf.Bytes(), err
+	}, "C02")
 	n := c.Pick(3000, 200000)
 	cfg := core.DefaultGen
 	for done := 0; done < n; {
@@ -340,6 +347,52 @@ func c02FailedEncodes(c *core.Ctx, r *core.Rand, n int) {
 		if hasLink {
 			c.Dist("failed-encode-histories:with-link")
 		}
+	}
+}
+
+// c02HelperHistories: what an encode handed back is the caller's.  Through the helper API (ipld.Encode, ipld.Marshal with
+// the codec's encoder) several values are encoded one after another on one goroutine, every result is kept, and after
+// each further encode every earlier result still holds exactly the canonical bytes of ITS value.
+func c02HelperHistories(c *core.Ctx, r *core.Rand, n int, enc codec.Encoder, canon func(datamodel.Node) ([]byte, error), pfx string) {
+	cfg := core.DefaultGen
+	cfg.MaxDepth, cfg.MaxWidth, cfg.BigUint, cfg.Floats = 3, 4, false, false
+	for i := 0; i < n; i++ {
+		type kept struct {
+			term       string
+			got, canon []byte
+		}
+		var hist []kept
+		for k := 2 + r.Intn(5); k > 0; k-- {
+			v := core.GenVal(r, cfg, 0)
+			nd, err := core.BuildBasic(v, nil)
+			if err != nil {
+				continue
+			}
+			want, err := canon(nd)
+			if err != nil {
+				continue
+			}
+			got, err := ipld.Encode(nd, enc)
+			if err != nil {
+				c.Fail(pfx+"/helper-encode-fails", core.Replay{Kind: "oracle", Case: pfx + ".helper-history " + v.Term(), Impl: err.Error()})
+				continue
+			}
+			hist = append(hist, kept{v.Term(), got, append([]byte{}, want...)})
+			var terms []string
+			for _, h := range hist {
+				terms = append(terms, h.term)
+			}
+			caseID := pfx + ".helper-history " + strings.Join(terms, " ; ")
+			c.Count(caseID, len(hist) >= 2)
+			for j, h := range hist {
+				if !bytes.Equal(h.got, h.canon) {
+					c.Fail(pfx+"/returned-bytes-changed-by-later-encode", core.Replay{Kind: "oracle", Case: caseID, Impl: hex.EncodeToString(h.got), Expected: hex.EncodeToString(h.canon),
+						Detail: fmt.Sprintf("the bytes ipld.Encode returned for value %d, looked at again after %d further encode(s)", j, len(hist)-1-j)})
+					hist[j].got = append([]byte{}, h.canon...)
+				}
+			}
+		}
+		c.Dist("helper-histories")
 	}
 }
 
